@@ -77,6 +77,8 @@ class Contract:
         return self.target.replace('stix2/', '').replace('.py::', '.').replace('/', '.')
 
     def lift_local(self, sort, v):
+        lf = getattr(self, 'lifters', None)
+        if lf and sort in lf: return lf[sort](v)
         if sort == 'set' and v.sort == 'litdict' and not v.x: return Val('set', E.EMPTY)       # a dict used only through its key set
         if sort.startswith('opt:') and not v.sort.startswith('opt:'):
             inner = sort[4:]
